@@ -146,7 +146,7 @@ class Shifts(Stage):
 
     def gen(self, d, tier):
         nmsg = d.int(3, 28)
-        specs = histgen.history(d, nconn=d.int(1, 2), nmsg=nmsg, profile=PROFILE, t0=d.choice([0, 1, 999, 1000, 123456, 59_999_999]),
+        specs = histgen.history(d, nconn=d.int(1, 2), nmsg=nmsg, profile=PROFILE, t0=d.choice([0, 1, 999, 1000, 123456, 59_999_999, 4_290_000_000]),
                                 gaps=[0, 1, 13, 250, 999, 1000, 999_999, 1_000_000, 1_000_000, 1_000_001, 999_999, 500_000, 500_001, 2_500_000, 60_000_000])
         order = 'chronological'
         if d.chance(0.15):
@@ -156,7 +156,19 @@ class Shifts(Stage):
             base = specs[0]['t_us']
             for m in specs[1:]:
                 if d.chance(0.4):
-                    m['t_us'] = max(0, base - d.choice([1, 999, 1_000_001, 2_500_000, d.int(0, 5_000_000)]) + (m['t_us'] - base) // 7)
+                    m['t_us'] = max(0, base - d.choice([1, 999, 1_000_001, 2_500_000, d.int(0, 5_000_000), 2_200_000_000, 4_200_000_000]) + (m['t_us'] - base) // 7)      # (also the size of a restarted 32-bit microsecond clock)
+        if order == 'chronological' and d.chance(0.08) and len(specs) >= 3:
+            # libwayland's 32-bit microsecond clock restarts in the middle of the log: later lines carry small times again; shown
+            # times are still "log time minus first log time" (negative), nothing is to be "unwrapped"
+            order = 'clock-restart'
+            k = d.int(1, len(specs) - 1)
+            t = d.choice([4_290_000_000, 4_294_000_000, 4_200_000_000])
+            for i, m in enumerate(specs):
+                if i == k:
+                    t = d.choice([0, 100_000, 5_000_000])
+                elif i:
+                    t = min(t + d.choice([0, 1000, 250_000, 999_999, 1_000_001, 2_500_000]), histgen.T_MAX)
+                m['t_us'] = t
         whole = order == 'chronological' and d.chance(0.1)
         if whole:
             # every time a whole number of seconds: all the tool's floating-point arithmetic is exact then, so a gap of exactly
